@@ -63,6 +63,23 @@ impl HtmlWriter {
     }
 }
 
+impl HtmlWriter {
+    /// Write `buf` with HTML metacharacters escaped. The text that arrives here (source
+    /// lines, identifiers, messages) is user controlled. Escaping byte-wise is safe for
+    /// partial writes: `&`, `<` and `>` are never part of a multi-byte UTF-8 sequence.
+    fn write_escaped(&mut self, buf: &[u8]) -> std::io::Result<usize> {
+        for &byte in buf {
+            match byte {
+                b'&' => self.buffer.extend_from_slice(b"&amp;"),
+                b'<' => self.buffer.extend_from_slice(b"&lt;"),
+                b'>' => self.buffer.extend_from_slice(b"&gt;"),
+                _ => self.buffer.push(byte),
+            }
+        }
+        Ok(buf.len())
+    }
+}
+
 impl BufferedWriter for HtmlWriter {
     fn to_string(&self) -> String {
         String::from_utf8_lossy(&self.buffer).into()
@@ -75,26 +92,26 @@ impl std::io::Write for HtmlWriter {
             if color.fg() == Some(&Color::Red) {
                 self.buffer
                     .write_all("<span class=\"numbat-diagnostic-red\">".as_bytes())?;
-                let size = self.buffer.write(buf)?;
+                let size = self.write_escaped(buf)?;
                 self.buffer.write_all("</span>".as_bytes())?;
                 Ok(size)
             } else if color.fg() == Some(&Color::Blue) {
                 self.buffer
                     .write_all("<span class=\"numbat-diagnostic-blue\">".as_bytes())?;
-                let size = self.buffer.write(buf)?;
+                let size = self.write_escaped(buf)?;
                 self.buffer.write_all("</span>".as_bytes())?;
                 Ok(size)
             } else if color.bold() {
                 self.buffer
                     .write_all("<span class=\"numbat-diagnostic-bold\">".as_bytes())?;
-                let size = self.buffer.write(buf)?;
+                let size = self.write_escaped(buf)?;
                 self.buffer.write_all("</span>".as_bytes())?;
                 Ok(size)
             } else {
-                self.buffer.write(buf)
+                self.write_escaped(buf)
             }
         } else {
-            self.buffer.write(buf)
+            self.write_escaped(buf)
         }
     }
 
